@@ -658,14 +658,19 @@ class TypeTransformer:
             return data
         if self.no_explicit_cast:
             return t(data)  # noqa
-        if not self.no_data_loss:
-            if data in t.__members__:  # noqa
-                return t.__members__[data]  # noqa
-        member_type = getattr(t, "_member_type_", None)
-        if member_type and member_type != object:
-            if type(data) != member_type:
-                data = self(data, member_type)
-        return t(data)  # noqa
+        name = data
+        try:
+            member_type = getattr(t, "_member_type_", None)
+            if member_type and member_type != object:
+                if type(data) != member_type:
+                    data = self(data, member_type)
+            return t(data)  # noqa
+        except Exception:
+            # look the member up by value first (as the stricter preferences do) and by name only after that,
+            # so that the preferences can only restrict; member names are strings (other values may be unhashable)
+            if not self.no_data_loss and isinstance(name, str) and name in t.__members__:
+                return t.__members__[name]
+            raise
 
     @registry.register(io.BytesIO)
     def to_filelike(self, data, t):
